@@ -256,7 +256,7 @@ def _generate(rng, tier):
     for n in range(0, 5):
         for xs in itertools.product([1, 2, 0], repeat=n):
             yield {"fam": "cmp", "op": "not", "xs": list(xs), "other": {"t": "scalar", "ys": [1]}, "xdtype": "bool" if n == 0 else None}
-    kinds = [[0], [1, 2], [3, 4, 5, 7], [14, 15, 16], [19, 20, 23], [26, 27], [4, 19, 0, 15], [33, 34, 35, 36, 37], [33, 36, 39, 40, 3],
+    kinds = [[0], [1, 2], [3, 4, 5, 7], [14, 15, 16], [14, 18, 16, 18], [19, 20, 23], [26, 27], [4, 19, 0, 15], [33, 34, 35, 36, 37], [33, 36, 39, 40, 3],
              [34, 37, 38, 35]]
     for it_ in range(15000 if not thorough else 120000):
         n = rng.randint(0, 5) if it_ % 60 else rng.choice([33, 64, 129, 257, 300])
